@@ -855,9 +855,9 @@ class Client(BaseClient):
             if not e.received_codes[-1].matches("50x"):
                 raise
 
-        if not path.name:
-            # working directory or root: no listing has an entry for it,
-            # but only a directory can be listed itself
+        if not path.name or path.name == "..":
+            # working directory, root or parent: no listing has an entry
+            # for it, but only a directory can be listed itself
             await self.list(path)
             return {"type": "dir"}
         for p, info in await self.list(path.parent):
